@@ -123,7 +123,7 @@ pub fn flavour_for(rng: &mut Rng, cfg: &GenCfg, w: u16, h: u16) -> (Flavour, u16
             let w4 = ((w + 3) / 4 * 4).clamp(4, 2048);
             let h4 = ((h + 3) / 4 * 4).clamp(4, 1020);
             let layers = if cfg.scal { Some((rng.below(16) as u8, rng.below(16) as u8)) } else { None };
-            (Flavour::StdPlus { umv_unlimited: false, layers }, w4, h4)
+            (Flavour::StdPlus { umv_unlimited: false, layers, hdr: None }, w4, h4)
         }
     }
 }
